@@ -63,3 +63,20 @@ Definition case_oracle_code (q : verdict_case) : N :=
   ((if Bool.eqb (documented (q_expected q) (q_full q)) (v_fouled (q_full q)) then 0 else 1)      (* verdict <> documented rule *)
    + (if Bool.eqb (documented (q_expected q) (q_early q)) (v_fouled (q_early q)) then 0 else 2)  (* same, with -S *)
    + (if Bool.eqb (v_fouled (q_full q)) (v_fouled (q_early q)) then 0 else 4))%N.                (* -S changes the verdict *)
+
+(** * Funnel primitives against the real combineErrors / ignCancel / errors.Is *)
+
+(** (schedule, component errors p s a c, verdict, cleanup, observed non-nil) *)
+Definition funnel_case := (sched * err * err * err * err * err * err * bool)%type.
+Definition funnel_model_bad (k : funnel_case) : bool :=
+  let '(sc, p, s, a, c, v, cl, o) := k in
+  negb (Bool.eqb (exit_nonzero (conduct_result sc {| o_p := p; o_s := s; o_a := a; o_c := c |} v cl)) o).
+
+(** (results in completion order, observed non-nil, observed errors.Is(_, Canceled)) *)
+Definition collect_case := (list err * bool * bool)%type.
+Definition collect_model_bad (k : collect_case) : bool :=
+  let '(rs, o, oc) := k in
+  negb (Bool.eqb (exit_nonzero (collect_errors rs)) o && Bool.eqb (is_last KCancel (collect_errors rs)) oc).
+(** the plain meaning: a failure among the results is never dropped *)
+Definition collect_oracle_bad (k : collect_case) : bool :=
+  let '(rs, o, _) := k in negb (Bool.eqb (existsb exit_nonzero rs) o).
